@@ -203,6 +203,12 @@ func GenerateUnit(w *World, sp *FuncSpec, opts UnitOpts) (res *UnitResult) {
 				return
 			}
 		}
+		for name := range sp.CallPost {
+			if !x.callpreUsed[sp.Key()+"|post|"+name] {
+				res.Err = "callpost names a callee that this function never calls under a contract: " + name
+				return
+			}
+		}
 	}
 	if os.Getenv("GOVC_DEBUG") != "" {
 		for k, m := range x.loopWrites {
